@@ -77,7 +77,12 @@ class Rat {
   Rat(I n, I d, Raw) : _n(n), _d(d) { norm(); }
 
  public:
-  Rat() : _n(0), _d(1) {}
+  // The documented requirements ask for default construction but say nothing about the
+  // VALUE of a default-constructed scalar (built-in types leave it indeterminate, T{} is 0
+  // only for some types).  The archetype therefore default-constructs to a conspicuous
+  // sentinel, not to zero: library code that reads a default-constructed scalar instead
+  // of static_cast<T>(0) produces visibly wrong exact results.
+  Rat() : _n(7777), _d(1) {}
   // "construction from an integer through static_cast": every built-in integer
   // type, value preserving (the library converts int, size_t and whatever integer
   // type a caller uses as an operator scalar); nothing else converts
